@@ -193,6 +193,7 @@ structure Obs16 where
   invalid : Bool
   schema : Res (List (String × Json))         -- Cls.param.schema()
   schemaSafe : Res (List (String × Json))     -- Cls.param.schema(safe=True)
+  paramSchemas : List (String × Res Json)     -- obj.param[name].schema() per parameter (no title/description)
   ser : Res (List (String × Json))            -- json.loads(serialize_parameters())
   probes : List Probe
   allowNone : List (String × Bool)            -- effective allow_None (truthiness) per parameter
@@ -224,6 +225,7 @@ def model16 (st : List (Param × PyVal)) (probes : List (String × Json)) (class
   { invalid := !st.all (fun (p, v) => if classLevel then p.stateOK v else p.validB v)
     schema := liftE (schemaEntries none ps)
     schemaSafe := liftE (schemaEntriesSafe none ps)
+    paramSchemas := ps.map fun p => (p.name, liftE p.schema)
     ser := liftE (serializeParameters st none)
     probes := probes.filterMap fun (n, x) =>
       (findParam ps n).map fun p => { name := n, value := x, accepted := probeAccepted p x }
@@ -246,6 +248,17 @@ def spec16 (ps : List Param) (o : Obs16) : Option String :=
   | some (n, _) => some s!"parameter {n}: serialized value does not validate against its schema"
   | none =>
   if !validate (objectSchema entries) (.obj fields) then some "serialized state does not validate" else
+  -- the per-parameter entry point `Parameter.schema()` answers, and the state validates against it too
+  match o.paramSchemas.findSome? (fun (n, r) =>
+      match r, Json.lookup n fields with
+      | .error e, _ => some s!"parameter {n}: Parameter.schema() raised {e}"
+      | .ok s, some j =>
+        if !wellFormed s then some s!"parameter {n}: Parameter.schema() is not a well-formed JSON Schema"
+        else if !validate s j then some s!"parameter {n}: serialized value does not validate against Parameter.schema()"
+        else none
+      | .ok _, none => none) with
+  | some w => some w
+  | none =>
   -- `safe=True` may refuse, never give another schema
   if (match o.schemaSafe with
       | .ok safeEntries => !beqJFields safeEntries entries
